@@ -2,6 +2,7 @@ import KyupyVerif.Model.Transform
 import KyupyVerif.Model.Substitute
 import KyupyVerif.Model.SubstSem
 import KyupyVerif.Model.ResolveHyp
+import KyupyVerif.Model.ResolveStatic
 /-! Driver extension for C10: the transformation models on one netlist dump.
 
 `xform <op> <names> <dump...>`
@@ -27,7 +28,8 @@ library given as (kind, implementation) blocks; answer as for `xform`.
 repair of D30 squeezed out — the theorems hold there too, the flag only counts such cases), followed by the hypotheses of
 `C10.substitute_sem_general`: `<host wfNoTrail> <implGenOKB> <noSelfIgnB> <hasIgnoredB> <designated cell exists>`.
 `resolveok` (arguments as `resolve`) — those of `C10.resolve_sem`: `<host wf> <resolveOKB> <result wf> <first failing condition or ok>`,
-followed by those of `C10.resolve_sem_general`: `<host wfNoTrail> <resolveGenOKB> <result wfNoTrail> <first failing condition or ok>`. -/
+followed by those of `C10.resolve_sem_general`: `<host wfNoTrail> <resolveGenOKB> <result wfNoTrail> <first failing condition or ok>`,
+those of `C10.resolve_run_isSome` (fields 8-14) and the static hypothesis `resolveStaticB` of `C10.resolve_isSome_static` (field 15). -/
 namespace KV.Drv.Transform
 open KV KV.Transform
 
@@ -203,7 +205,9 @@ def handleResolveOk (args : List String) : String :=
       -- hypotheses of `C10.resolve_run_isSome` (fields 8-12) and the model's success (13), gap-free forks of the model result (14)
       b01 (forksDenseB h.net), b01 (libOKB lib), b01 (resolveInstB lib h.keys h), resolveInstWhy lib h.keys h,
       b01 (h.wfNoTrail && forksDenseB h.net && libOKB lib && resolveInstB lib h.keys h), b01 (resolveCells lib h).isSome,
-      (match resolveCells lib h with | some r => b01 (forksDenseB r.net) | none => "-")]
+      (match resolveCells lib h with | some r => b01 (forksDenseB r.net) | none => "-"),
+      -- static hypothesis of `C10.resolve_isSome_static` (field 15): original circuit only
+      b01 (resolveStaticB lib h)]
   | _ => "bad-args"
 
 def showMaps : Option (NNet × Ren) → String
